@@ -356,9 +356,10 @@ func runWorker(c Check, units []Unit, tier string, seed int64, k, w, budget int,
 	}
 	var mine []iu
 	var ns []iu
+	var split []iu
 	for i, u := range units {
 		if u.Split {
-			mine = append(mine, iu{i, u})
+			split = append(split, iu{i, u})
 		} else {
 			ns = append(ns, iu{i, u})
 		}
@@ -368,6 +369,14 @@ func runWorker(c Check, units []Unit, tier string, seed int64, k, w, budget int,
 		if j%w == k {
 			mine = append(mine, x)
 		}
+	}
+	// split units last: they inherit the time the dealt units did not need
+	mine = append(mine, split...)
+	cost := func(x iu) int {
+		if x.u.Cost > 0 {
+			return x.u.Cost
+		}
+		return 1
 	}
 	for j, x := range mine {
 		u := &U{Tier: tier, Seed: seed, Verbose: verbose}
@@ -379,7 +388,11 @@ func runWorker(c Check, units []Unit, tier string, seed int64, k, w, budget int,
 			enc.Encode(UnitReport{Name: x.u.Name, Skipped: true, Exhaustive: false, Notes: []string{"skipped: wall-clock budget exhausted"}, Level: -1})
 			continue
 		}
-		u.Deadline = time.Now().Add(remaining / time.Duration(len(mine)-j))
+		left := 0
+		for _, y := range mine[j:] {
+			left += cost(y)
+		}
+		u.Deadline = time.Now().Add(remaining * time.Duration(cost(x)) / time.Duration(left))
 		if j == len(mine)-1 {
 			u.Deadline = deadline
 		}
